@@ -11,7 +11,7 @@ C18 (last NAME KIND TEXT)   KIND = native | returns | raises | suspends | nonstr
    → model=<last line of the report> spec=<Python's> pre=<before the repair of C18-F9>
 C18 (loops (CAUGHT|legacy|new LOGGER (OCC…))…)   OCC = (RES BOOL RES BOOL RES), RES = ok | (raise N)
    → model=<served runs subs log> spec=<the same from specRecs/specRuns>
-C18 (load (NAME RES)…)  → model=<contexts | script-logger records> spec=<…>
+C18 (load (NAME RES [NSHUTDOWN])…)  → model=<contexts | script-logger records | functions run> spec=<…> pre=<before the repair of C18-F10>
 ```
 -/
 namespace PsModel.C18
@@ -96,7 +96,8 @@ def showLog (l : List LogRec) : String :=
   "(" ++ " ".intercalate (l.map (fun r => s!"{r.logger}:{r.exc}:{if r.scriptTb then "tb" else "plain"}")) ++ ")"
 
 def file? : Sexp → Option SrcFile
-  | .list [.atom n, r] => res? r >>= fun x => some ⟨n, x⟩
+  | .list [.atom n, r] => res? r >>= fun x => some ⟨n, x, 0⟩
+  | .list [.atom n, r, k] => res? r >>= fun x => k.nat? >>= fun m => some ⟨n, x, m⟩
   | _ => none
 
 def strImpl? (kind text : String) : Option StrImpl :=
@@ -133,9 +134,10 @@ def handle (x : Sexp) : String :=
   | .list (.atom "load" :: fs) =>
     match Sexp.mapM? file? fs with
     | some files =>
-      let r := loadAll files ⟨[], []⟩
+      let r := loadAll files ⟨[], [], []⟩
       let recs := (r.log.filter (·.scriptTb)).map (·.logger)
-      s!"model={r.contexts}|{recs} spec={specContexts files}|{(failing files).map (·.name)}"
+      let pre := loadAllC false files ⟨[], [], []⟩
+      s!"model={r.contexts}|{recs}|{r.ran} spec={specContexts files}|{(failing files).map (·.name)}|[] pre={pre.contexts}|{pre.ran}"
     | none => "err parse"
   | _ => "err bad-command"
 
